@@ -263,6 +263,20 @@ def run(ck):
             for k in range(2 if quick else 8):
                 tasks.append({"scen": "metrics", "params": ss, "strat": ["random", rng.randrange(10 ** 9), 0.5],
                               "gran": "line" if k % 2 else "sync", "facts": dict(facts, directed=True)})
+    # two threads shut the same stack down at the same instant (while a submission is in progress): one shutdown
+    for base in ("pool", "sync"):
+        for lay in ([{"t": "map"}], [{"t": "throttle", "count": 1}], [{"t": "retry", "attempts": 2, "sleep": 100}], [{"t": "cos"}],
+                    [{"t": "timeout", "T": 830}, {"t": "map"}]):
+            s2 = {"stacks": [{"base": base, "workers": 1, "layers": [dict(l) for l in lay]}],
+                  "jobs": [{"st": 0, "S": 99, "K": None, "C": False, "D": [200] if base == "pool" else 0, "script": [["V", 0]], "polls": 1},
+                           {"st": 0, "S": 100, "K": None, "C": False, "D": [50] if base == "pool" else 0, "script": [["V", 0]], "polls": 1}],
+                  "comb": [], "snaps": [50, 1500], "shutdown": [{"st": 0, "at": 100, "wait": True, "threads": 2}], "horizon": 2500}
+            facts = {k: False for k in D7_FACTS}
+            facts["d7"] = False
+            facts.update(describe(s2))
+            for k in range(3 if quick else 12):
+                tasks.append({"scen": "metrics", "params": s2, "strat": ["random", rng.randrange(10 ** 9), 0.5],
+                              "gran": "line", "facts": dict(facts, directed=True)})
     pairs = ck.run_and_validate(tasks, TRACE)
     # bookkeeping for the evidence: which clause failed for which ingredients; did the facts hold up
     drift = 0
